@@ -9,7 +9,7 @@
 //! expiry rounds, "are all senders of the connection gone?").  TLC validates the log against
 //! KeepAlive.tla Part 2; the projections expected by the model are compared as a drift note.
 use litep2p::{
-    verif::svc::{Cmd, ServiceHarness, SvcEvent},
+    verif::svc::{Cmd, Delivery, ServiceHarness, SvcEvent},
     PeerId,
 };
 use multiaddr::Multiaddr;
@@ -32,6 +32,14 @@ struct World {
     out: Vec<String>,
     clogs_effective: usize,
     drift: Vec<String>,
+}
+
+/// result of a substream report into an inbox that is never filled up by these schedules
+fn done(d: Result<Delivery, String>) -> Result<(), String> {
+    match d? {
+        Delivery::Done(r) => r,
+        Delivery::Blocked => Err("blocked".into()),
+    }
 }
 
 fn qi(name: &str) -> usize {
@@ -160,13 +168,13 @@ impl World {
 
     fn reply(&mut self, sid: usize, opened: bool) {
         let Some((q, c)) = self.pending.remove(&sid) else { return };
-        let r = self.h.reply(c, sid, opened);
+        let r = done(self.h.reply(c, sid, opened, false));
         self.poll_all(q);
         self.rec(if opened { "opened" } else { "failed" }, q, c, r.is_ok(), json!({"sid": sid}));
     }
 
     fn inbound(&mut self, q: usize, c: usize) {
-        let r = self.h.inbound(c, q);
+        let r = done(self.h.inbound(c, q, false));
         self.poll_all(q);
         self.rec("inbound", q, c, r.is_ok(), json!({"ret": r.err().unwrap_or("ok".into())}));
     }
